@@ -36,6 +36,7 @@ def run(tier, rep):
     fe.mc(rep, "items", 3 if quick else 6, maxpay=2, damage=False, optset="OptCore" if quick else "OptAll", bundle=bundle)
     rnd = rng("c02")
     pool = stream_corpus.payload_pool(bundle, "c02") + stream_corpus.special_payloads(bundle, rnd) + stream_corpus.syncy_payloads(rnd, 20)
+    von, voff = stream_corpus.validate_values()
     tr = fe.Traces(rep)
     n = 48 if quick else 800
     for i in range(n):
@@ -48,7 +49,7 @@ def run(tier, rep):
             mode = rnd.choice(["critical", "critical", "small", "mixed", "random", "all"])
             seg = sockdouble.critical_segmentation(rnd, [it[1] for it in items]) if mode == "critical" else sockdouble.segmentation(rnd, len(data), mode)
         want = [it[1] for it in items if it[0] == "frame"] if parsed else [it[1] for it in items if it[0] in ("frame", "frame0")]
-        tr.add(data, kind=kind, validate=rnd.choice([0, 1]), parsed=parsed, quit=quit, seg=seg, bufsize=rnd.choice([7, 512, 4096, 4096]),
+        tr.add(data, kind=kind, validate=rnd.choice(von + voff), parsed=parsed, quit=quit, seg=seg, bufsize=rnd.choice([7, 512, 4096, 4096]),
                rnd=rnd, use_iter=bool(i % 2), want=want, nitems=len(items), nframes=len(want))
     # large but legal: more than a thousand consecutive foreign items between two frames, and
     # thousands of frames through one reader object
